@@ -71,7 +71,10 @@ type recClient Recorder
 
 func (c *recClient) r() *Recorder { return (*Recorder)(c) }
 
-func (c *recClient) Get(_ context.Context, key string) ([]byte, error) {
+func (c *recClient) Get(ctx context.Context, key string) ([]byte, error) {
+	if err := ctx.Err(); err != nil {
+		return nil, err // a storage client honours its context, like a real one
+	}
 	r := c.r()
 	r.mu.Lock()
 	defer r.mu.Unlock()
@@ -90,7 +93,10 @@ func (c *recClient) Delete(ctx context.Context, key string) error {
 	return c.Batch(ctx, storage.DeleteOperation(key))
 }
 
-func (c *recClient) Batch(_ context.Context, ops ...*storage.Operation) error {
+func (c *recClient) Batch(ctx context.Context, ops ...*storage.Operation) error {
+	if err := ctx.Err(); err != nil {
+		return err // a storage client honours its context, like a real one
+	}
 	r := c.r()
 	if d := r.delay.Load(); d > 0 {
 		for _, op := range ops {
@@ -218,4 +224,14 @@ func (h Host) GetExtensions() map[component.ID]component.Component { return h.Ex
 // HostWith returns a host serving the recorder under StorageID.
 func HostWith(r *Recorder) Host {
 	return Host{Exts: map[component.ID]component.Component{StorageID: r}}
+}
+
+// StartThenCancel starts a component with a context that is cancelled as soon
+// as Start has returned — what component.Component documents ("that context
+// will be cancelled soon"): nothing long-running may depend on it.
+func StartThenCancel(c component.Component, host component.Host) error {
+	ctx, cancel := context.WithCancel(context.Background())
+	err := c.Start(ctx, host)
+	cancel()
+	return err
 }
